@@ -1047,4 +1047,39 @@ theorem most_specific_of_inv {pt : PTree} {es : List Endpoint} (hinv : Inv pt es
         simp [h1, this]
   · simp at hf
 
+/-- Every remedy the dispatcher selects for `(m, u)` is entitled to it: an enabled global one, or an enabled
+    remedy of an endpoint declared for `m` whose pattern matches `u`. -/
+theorem selRemedies_entitled {pt : PTree} {es : List Endpoint} (hinv : Inv pt es) {g : Globals} {m : String}
+    {u : List Part} (hF13c : boundaryMix es u = false) (r : Remedy) (hr : r ∈ selRemedies pt g m u) :
+    dispOk es g m u r.name = true := by
+  unfold dispOk
+  rw [Bool.or_eq_true]
+  unfold selRemedies at hr
+  rcases List.mem_append.mp hr with h | h
+  · right
+    cases hp : (select pt m u).policy with
+    | none => simp [hp] at h
+    | some pol =>
+      obtain ⟨q, i, e, _, hq, hm, hpol, _, _, _, _⟩ := select_char hinv hp
+      simp only [hp, hpol, Policy.remedies, List.mem_filter, List.mem_flatMap] at h
+      obtain ⟨⟨x, hx, hrx⟩, hen⟩ := h
+      obtain ⟨hx1, hx2, hx3⟩ := mem_group.mp hx
+      rw [List.any_eq_true]
+      refine ⟨x, hx1, ?_⟩
+      have hmatch : «matches» x.parts u = true := by
+        rw [hx3]
+        apply matches_of_lax q u hm
+        have hb := hF13c
+        unfold boundaryMix at hb
+        rw [List.any_eq_false] at hb
+        have := hb x hx1
+        rw [hx3] at this
+        simpa using this
+      simp only [hx2, hmatch, beq_self_eq_true, Bool.true_and, List.any_eq_true]
+      exact ⟨r, hrx, by simp [hen]⟩
+  · left
+    simp only [List.mem_filter] at h
+    rw [List.any_eq_true]
+    exact ⟨r, h.1, by simp [h.2]⟩
+
 end LunarVerif.C13
